@@ -56,6 +56,16 @@ def step (quirkV0 : Bool) (toks : List String) (impl : String) : Res :=
   | some "offer" => stepOffer quirkV0 toks impl
   | some "offer2" => stepOffer2 toks impl
   | some "offered" => stepOffered toks impl
+  | some "overlap" =>
+    -- two version-1 offers of the same fresh in-range key, back to back: the first is accepted and is being received
+    -- when the second is answered (Of.verdictV1 with inflight = true)
+    let e1 : Env := { inRange := fun _ => true, stored := fun _ => false, inflight := fun _ => false, queueFull := false }
+    let e2 : Env := { e1 with inflight := fun _ => true }
+    let r1 := handleOffer false 1 e1 true 7 [0]
+    let r2 := handleOffer false 1 e2 true 7 [0]
+    let sh (r : Reply) := s!"verdicts={",".intercalate (r.verdicts.map Verdict.name)} conn={if r.connId.isSome then 1 else 0}"
+    let m := sh r1 ++ " / " ++ sh r2
+    { model := m, monitor := if impl == m then [] else ["accepted_only_if_not_already_being_received"], tags := ["overlap"] }
   | _ => { model := "bad-op", tags := ["bad-op"], nontrivial := false }
 
 end Drv.C09
